@@ -42,6 +42,7 @@ func c12build() *c12world {
 	add("R5", `(a)|b`)       // second instance: shares only the global pools with R1
 	add("R6", `(a+)+$`)      // catastrophic; used with a timeout
 	w.re["R6"].MatchTimeout = 5 * time.Millisecond
+	add("R7", `(a)(b)`, regexp2.OptionMaxCachedReplacerDataEntries(1)) // replacement cache of 1
 	return w
 }
 
@@ -100,6 +101,8 @@ func c12calls() []c12call {
 	repl("R1", "ab", "[$&]", `"ab"`)
 	repl("R1", "ba", "${1}$1", `"ba"`)
 	repl("R1", long1k, "$1", "1025 runes")
+	repl("R1", "ab", "{$1$&}", `"ab"`)
+	repl("R1", "ab", "$$$1", `"ab"`)
 	split("R1", "cabc", `"cabc"`)
 	add(`R1.ReplaceFunc("ab") with a nested R1.MatchString`, func(w *c12world) string {
 		x, err := w.re["R1"].ReplaceFunc("ab", func(m regexp2.Match) string {
@@ -126,6 +129,10 @@ func c12calls() []c12call {
 	find("R4", "ab", `"ab"`)
 	find("R4", "a", `"a"`)
 	repl("R4", "ab", "${5}$1", `"ab"`)
+	// R7 replacement cache of one entry
+	repl("R7", "ab", "<$1>", `"ab"`)
+	repl("R7", "ab", "[$2$1]", `"ab"`)
+	repl("R7", "xab", "${1}-$&", `"xab"`)
 	// R6 timed catastrophic match (virtual time: each timeout check costs this thread 1 ms)
 	add("R6.MatchString(timeout)", func(w *c12world) string {
 		t := vsched.Cur()
@@ -302,6 +309,8 @@ func runC12(c *Ctx) {
 	unis = append(unis,
 		uni{"R1+events", pick("R1.", "event:"), small},
 		uni{"R1+R5 (global pools)", pick("R1.MatchString", "R1.FindAll", "R1.Replace(1025", "R5.", "event:"), small},
+		uni{"R1 replacements (cache of 2, six replacement strings)", pick("R1.Replace(\"", "R1.MatchString(\"xab\")"), small},
+		uni{"R7 replacements (cache of 1)", pick("R7.", "event:gc"), small},
 		uni{"R2 balancing", pick("R2.", "event:"), small},
 		uni{"R3 stack-limited", pick("R3.", "event:"), small},
 		uni{"R4 sparse", pick("R4.", "event:"), small},
